@@ -57,14 +57,14 @@ def phases(tier: str) -> List[Dict[str, Any]]:
             {"name": "aot_eager", "runs": 176, "heavy": True, "timeout": 300, "wall": 110},
             {"name": "fx", "runs": 96, "heavy": True, "timeout": 300, "wall": 60},
             {"name": "known", "runs": 4, "heavy": True, "timeout": 300, "wall": 60},
-            {"name": "known_fixed", "runs": 3, "explicit": True, "timeout": 600, "wall": 200},
+            {"name": "known_fixed", "runs": 4, "explicit": True, "timeout": 600, "wall": 200},
         ]
     return [
         {"name": "aot_eager", "runs": 6000, "heavy": True, "timeout": 400, "wall": 1800},
         {"name": "inductor", "runs": 400, "heavy": True, "timeout": 900, "wall": 1500},
         {"name": "fx", "runs": 3000, "heavy": True, "timeout": 300, "wall": 600},
         {"name": "known", "runs": 32, "heavy": True, "timeout": 300, "wall": 120},
-        {"name": "known_fixed", "runs": 3, "explicit": True, "timeout": 600, "wall": 200},
+        {"name": "known_fixed", "runs": 4, "explicit": True, "timeout": 600, "wall": 200},
     ]
 
 
@@ -202,7 +202,8 @@ def explicit_plans(tier: str, phase: str) -> List[Dict[str, Any]]:
            "knobs": dict(kn, dynamic=True, fullgraph=False),
            "atoms": [{"atom": "linear_readout", "bias": False, "constraint": "to_grad_input_scale", "dout": 3}],
            "ops": [{"op": "call", "batch": [2], "D": 6, "dtype": "float32", "mode": "bwd", "mask": 61, "tseed": 657959300}]}
-    return [d12, d14, d15]
+    d19 = {"atoms": [{"atom": "matmul", "constraint": None, "dout": 3}, {"atom": "sdpa", "causal": True, "mult": 2.0, "proj": False}, {"atom": "conv1d", "bias": False, "constraint": "to_output_scale", "cout": 3, "ksz": 3, "stride": 1}], "kind": "chain", "knobs": {"automatic_dynamic": True, "dynamic": None, "fullgraph": True, "recompile_limit": 8}, "ops": [{"D": 4, "batch": [1], "dtype": "float32", "mask": 22, "mode": "bwd", "op": "call", "tseed": 419276206}, {"D": 4, "batch": [7, 7], "dtype": "float32", "mask": 22, "mode": "bwd", "op": "call", "tseed": 495302353}], "phase": "inductor", "shrink_budget": 0, "timeout": 900}
+    return [d12, d14, d15, d19]
 
 
 # ------------------------------------------------------------------------------------
@@ -525,7 +526,37 @@ def _call(fn: Any, module: Any, args: List[Any], mode: str, gseed: int) -> Dict[
 TOL = {"torch.float64": 1e-11, "torch.float32": 2e-5, "torch.bfloat16": 2.0 ** -6, "torch.float16": 2.0 ** -9}
 
 
-def _cmp(a: Any, b: Any, what: str, tol_scale: float = 1.0) -> Optional[str]:
+def _within_rounding_of_reference(built: Any, args: List[Any], op: Dict[str, Any], got: Dict[str, Any],
+                                  want: Dict[str, Any]) -> bool:
+    """err(compiled, ref64) <= 4 * err(eager, ref64) + dtype rounding, for outputs and gradients,
+    where ref64 is the eager computation of the same callable on float64 copies of the inputs."""
+    import torch
+
+    if built.module is not None:
+        return False
+    a64 = [t.double() if t.is_floating_point() else t for t in args]
+    try:
+        ref = _call(built.fn, None, _prep(a64, op["mask"], op["mode"]), op["mode"], op["tseed"] % 1000)
+    except Exception:
+        return False
+    def errs(side: Dict[str, Any]) -> List[Tuple[float, float]]:
+        out = []
+        pairs = list(zip(side["outs"], ref["outs"]))
+        if side["grads"] is not None and ref["grads"] is not None:
+            pairs += [(x, y) for x, y in zip(side["grads"], ref["grads"]) if x is not None and y is not None]
+        for x, y in pairs:
+            out.append((float((x.double() - y).abs().max()) if x.numel() else 0.0,
+                        float(y.abs().max()) if y.numel() else 0.0))
+        return out
+    ec, ee = errs(got), errs(want)
+    if len(ec) != len(ee):
+        return False
+    unit = TOL.get("torch." + op["dtype"], 2.0 ** -6)
+    gmax = max([s_ for _, s_ in ee] + [1e-30])
+    return all(c <= 4.0 * e + unit * max(s_, 1e-3 * gmax) for (c, s_), (e, _) in zip(ec, ee))
+
+
+def _cmp(a: Any, b: Any, what: str, tol_scale: float = 1.0, min_scale: float = 0.0) -> Optional[str]:
     import torch
 
     if a is None or b is None:
@@ -540,7 +571,7 @@ def _cmp(a: Any, b: Any, what: str, tol_scale: float = 1.0) -> Optional[str]:
     x, y = a.double(), b.double()
     if torch.isnan(x).any() or torch.isnan(y).any():
         return None if bool((torch.isnan(x) == torch.isnan(y)).all()) else f"{what}: NaN pattern differs"
-    scale = max(float(x.abs().max()), float(y.abs().max()), 1e-30)
+    scale = max(float(x.abs().max()), float(y.abs().max()), 1e-30, 1e-3 * min_scale)
     err = float((x - y).abs().max())
     if err > tol * scale:
         return f"{what}: max|diff|={err:.3e} scale={scale:.3e} tol={tol:.1e} dtype={a.dtype}"
@@ -657,15 +688,29 @@ def execute(plan: Dict[str, Any]) -> Dict[str, Any]:
                     d = f"output: {len(got['outs'])} outputs vs eager {len(want['outs'])}"
                 for j, (x, y) in enumerate(zip(got["outs"], want["outs"])):
                     d = d or _cmp(x, y, f"output[{j}]", tol_scale)
+                # the scale for gradients is the largest gradient of the call: a gradient that is
+                # pure cancellation noise (true value 0) is not comparable on its own scale
+                gscale = 0.0
+                for side in (got, want):
+                    for gt in (side["grads"] or []):
+                        if gt is not None and gt.numel():
+                            gscale = max(gscale, float(gt.double().abs().max()))
                 if d is None and got["req"] != want["req"]:
                     d = f"output.requires_grad {got['req']} vs eager {want['req']}"
                 if d is None and (got["grads"] is None) != (want["grads"] is None):
                     d = "gradients present on one side only"
                 if d is None and got["grads"] is not None:
                     for j, (x, y) in enumerate(zip(got["grads"], want["grads"])):
-                        d = _cmp(x, y, f"grad[{j}]", tol_scale)
+                        d = _cmp(x, y, f"grad[{j}]", tol_scale, gscale)
                         if d:
                             break
+                if d and op["dtype"] in ("bfloat16", "float16") and ": dtype " not in d and ": shape " not in d:
+                    # "agree to float rounding": a compiled graph keeps fused intermediates in
+                    # float32 where eager rounds each one to the low-precision dtype; both are then
+                    # judged against the same computation in float64
+                    if _within_rounding_of_reference(built, args, op, got, want):
+                        probe("low_precision_judged_against_float64_reference")
+                        d = None
                 if d and backend == "inductor" and plan.get("tail") and not d.startswith("output"):
                     raise Violation("eager_equals_compiled", "inductor_aliased_outputs_lose_backward_scale",
                                     f"{d} after outcome {oc} (history {outcomes}) {where} call {op}")
@@ -701,6 +746,8 @@ def execute(plan: Dict[str, Any]) -> Dict[str, Any]:
 def _exc_culprit(e: BaseException, knobs: Optional[Dict[str, Any]] = None) -> str:
     if "Guard failed on the same frame it was created" in str(e):
         return "call_raised:dynamo_float_guard_on_symbolic_scale"
+    if type(e).__name__ == "InductorError" and "cannot determine truth value of Relational" in str(e):
+        return "call_raised:inductor_symbolic_relational"
     if knobs and knobs.get("dynamic") is True and type(e).__name__ in ("AssertionError", "InternalTorchDynamoError"):
         return "call_raised:dynamic_true_symbolic_scale"
     return "call_raised:" + type(e).__name__
@@ -810,7 +857,7 @@ def neutralise(plan: Dict[str, Any], finding: Dict[str, Any]) -> Optional[Dict[s
         c = copy.deepcopy(plan)
         c["phase"] = "aot_eager"  # counterfactual: the same callable and history without Inductor code generation
         return c
-    if finding.get("id") == "D14":
+    if finding.get("id") in ("D14", "D19"):
         c = copy.deepcopy(plan)
         c["knobs"].update(dynamic=False, automatic_dynamic=False)  # counterfactual: static recompiles only
         return c
